@@ -937,6 +937,12 @@ class Machine:
                     return None
             dst, src = self.resolve_addr(args[0]), self.resolve_addr(args[1])
             if self.arrays and (self._array_for(src) is not None or self._array_for(dst) is not None):
+                so, do = self._array_for(src), self._array_for(dst)
+                if so is not None and do is not None and so is not do and src == so[0] and dst == do[0] and n == so[1] - so[0] == do[1] - do[0]:
+                    # whole-object copy between two array-mode blocks: one shifted view instead of n stores
+                    x = z3.BitVec("__i", 64)
+                    do[2] = z3.Lambda([x], z3.Select(so[2], x - z3.BitVecVal(dst, 64) + z3.BitVecVal(src, 64)))
+                    return None
                 vals = [self.load_bytes(src + i, 1) for i in range(n)]
                 for i, v in enumerate(vals):
                     self.store_bytes(dst + i, v, 1)
